@@ -3,6 +3,7 @@ package props
 import (
 	"fmt"
 	"net/http"
+	"path"
 	"sort"
 	"strings"
 
@@ -34,6 +35,9 @@ type SvcSpec struct {
 
 // FullPath is what the library stores in Route.Path (needed by RemoveRoute).
 func FullPath(root, sub string) string {
+	if !restful.TrimRightSlashEnabled {
+		return path.Join(root, sub) // the 3.10.2 behaviour the package variable switches to
+	}
 	return strings.TrimRight(root, "/") + "/" + strings.TrimLeft(sub, "/")
 }
 
